@@ -300,10 +300,17 @@ mod tyx {
             let mut v = Vec::new();
             self.eat(b'(');
             while self.peek() != b')' {
-                let id: u32 = self.ident().parse().unwrap();
+                // a field label is a number, or `n<hex of the UTF-8 name>` for a named label
+                let tok = self.ident();
+                let label = if let Some(h) = tok.strip_prefix('n') {
+                    let bytes: Vec<u8> = (0..h.len() / 2).map(|i| u8::from_str_radix(&h[2 * i..2 * i + 2], 16).unwrap()).collect();
+                    Label::Named(String::from_utf8(bytes).unwrap())
+                } else {
+                    Label::Id(tok.parse().unwrap())
+                };
                 self.eat(b':');
                 let ty = self.ty();
-                v.push(Field { id: Label::Id(id).into(), ty });
+                v.push(Field { id: label.into(), ty });
                 if self.peek() == b';' { self.i += 1; }
             }
             self.eat(b')');
